@@ -188,3 +188,134 @@ def model_queries(p, rng):
         ts += [smt(rng.choice(p.nums)), smt(p.nterm(2))]
     ts.append(smt(p.fla(1)))
     return ["(get-model)", "(get-value (" + " ".join(ts) + "))"]
+
+
+def clausal_history(logic, rng, options=(), steps=None, after_check=None):
+    """Push/pop history made of short clauses over few atoms: entailed units, unsat levels, satisfied clauses,
+    nested frames whose conflicts need several levels, probes after pops. Returns like `history`."""
+    p = Problem(logic, rng, nbool=rng.randint(4, 7), nnum=3)
+    atoms = list(p.bools)
+    if p.nums and rng.random() < 0.6:
+        atoms += [p.atom() for _ in range(rng.randint(1, 4))]
+    def lit():
+        a = rng.choice(atoms)
+        return a if rng.random() < 0.5 else ("app", "not", "Bool", [a])
+    def clause():
+        k = rng.choice([1, 2, 2, 2, 3])
+        ls = [lit() for _ in range(k)]
+        return ls[0] if k == 1 else ("app", "or", "Bool", ls)
+    lines = [f"(set-option {o})" for o in options] + [p.set_logic()] + p.decls
+    stack, checks = [[]], []
+    def check():
+        lines.append("(check-sat)")
+        checks.append([x for fr in stack for x in fr])
+        if after_check:
+            lines.extend(after_check(p, rng))
+    for _ in range(steps or rng.randint(14, 40)):
+        c = rng.random()
+        if c < 0.16 and len(stack) < 4:
+            lines.append("(push 1)"); stack.append([])
+        elif c < 0.30 and len(stack) > 1:
+            lines.append("(pop 1)"); stack.pop()
+            if rng.random() < 0.5:
+                check()
+        elif c < 0.75:
+            a = clause()
+            lines.append(f"(assert {smt(a)})"); stack[-1].append(a)
+            if rng.random() < 0.25:          # complete a small unsat / unit-entailing pattern
+                v = rng.choice(atoms)
+                w = rng.choice(atoms)
+                for cl in (("app", "or", "Bool", [v, w]), ("app", "or", "Bool", [v, ("app", "not", "Bool", [w])])):
+                    lines.append(f"(assert {smt(cl)})"); stack[-1].append(cl)
+        else:
+            check()
+    check()
+    return p, "\n".join(lines) + "\n", checks
+
+
+def steered_bool_history(rng, options=(), nvars=None, steps=None):
+    """Propositional push/pop history steered by a brute-force oracle (<= 10 variables): keeps most levels
+    satisfiable, builds levels whose unsatisfiability needs two nested frames, provokes real conflicts after pops,
+    re-introduces variables that had no clause for a while, probes popped facts. Returns (script, expected answers)."""
+    n = nvars or rng.randint(6, 10)
+    names = [f"v{i}" for i in range(n)]
+    lines = [f"(set-option {o})" for o in options] + ["(set-logic QF_UF)"] + [f"(declare-fun {v} () Bool)" for v in names]
+    stack = [[]]          # clauses as lists of ints (+-(i+1))
+    expected = []
+    def clauses():
+        return [c for fr in stack for c in fr]
+    def models(cls):
+        out = []
+        for m in range(1 << n):
+            if all(any(((m >> (abs(l) - 1)) & 1) == (1 if l > 0 else 0) for l in c) for c in cls):
+                out.append(m)
+        return out
+    def entailed(cls):
+        ms = models(cls)
+        if not ms:
+            return None
+        ent = set()
+        for i in range(n):
+            vals = {(m >> i) & 1 for m in ms}
+            if len(vals) == 1:
+                ent.add((i + 1) if vals.pop() else -(i + 1))
+        return ent
+    def lit_s(l):
+        return names[abs(l) - 1] if l > 0 else f"(not {names[abs(l) - 1]})"
+    def add(c):
+        stack[-1].append(c)
+        lines.append("(assert %s)" % (lit_s(c[0]) if len(c) == 1 else "(or " + " ".join(lit_s(l) for l in c) + ")"))
+    def check():
+        lines.append("(check-sat)")
+        expected.append("sat" if models(clauses()) else "unsat")
+    def pair_entailing(l):
+        w = rng.choice([x for x in range(1, n + 1) if x != abs(l)])
+        add([l, w]); add([l, -w])
+    for _ in range(steps or rng.randint(16, 36)):
+        ent = entailed(clauses())
+        if ent is None:                        # current stack unsat: leave the level (or stop at the base)
+            if len(stack) == 1:
+                break
+            lines.append("(pop 1)"); stack.pop()
+            if rng.random() < 0.6:
+                check()
+            continue
+        c = rng.random()
+        free = [l for i in range(1, n + 1) for l in (i, -i) if i not in ent and -i not in ent]
+        if c < 0.15 and len(stack) < 4:
+            lines.append("(push 1)"); stack.append([])
+        elif c < 0.25 and len(stack) > 1:
+            lines.append("(pop 1)"); stack.pop(); check()
+        elif c < 0.40 and free:
+            pair_entailing(rng.choice(free))                       # a unit that is entailed, not asserted
+        elif c < 0.50 and len(stack) >= 3:
+            lower = entailed([cl for fr in stack[:-1] for cl in fr]) or set()
+            base = entailed([cl for fr in stack[:-2] for cl in fr]) or set()
+            cand = [l for l in lower if l not in base]
+            if cand:                                               # unsat that needs the two innermost frames
+                pair_entailing(-rng.choice(cand)); check()
+        elif c < 0.62:
+            a, b = rng.sample(range(1, n + 1), 2)                  # conflict-provoking triple
+            sa, sb = rng.choice([1, -1]), rng.choice([1, -1])
+            for cl in ([sa * a, sb * b], [sa * a, -sb * b], [-sa * a, sb * b]):
+                add(cl)
+        elif c < 0.72 and ent:
+            unused = [i for i in range(1, n + 1) if all(i not in map(abs, cl) for cl in clauses())]
+            if len(unused) >= 2:                                   # satisfied clause introducing clause-less variables
+                x, y = unused[0], unused[1]
+                add([rng.choice(sorted(ent)), x, y])
+                check()                                            # x, y reach the engine without any clause
+                if rng.random() < 0.7:                             # ... and come back constrained
+                    if rng.random() < 0.5 and len(stack) < 4:
+                        lines.append("(push 1)"); stack.append([])
+                    for cl in rng.sample([[x, y], [-x, y], [x, -y], [-x, -y]], rng.choice([3, 4])):
+                        add(cl)
+                    check()
+            else:
+                add([rng.choice([1, -1]) * x for x in rng.sample(range(1, n + 1), rng.choice([2, 3]))])
+        elif c < 0.84:
+            add([rng.choice([1, -1]) * x for x in rng.sample(range(1, n + 1), rng.choice([2, 2, 3]))])
+        else:
+            check()
+    check()
+    return "\n".join(lines) + "\n", expected
